@@ -277,6 +277,7 @@ class Interp:
         self.noop_calls = {"print", "warn"}
         self.inline_depth = 0
         self.nyields = 0
+        self.frame_stack = []
         self.call_hooks = {}     # qualname -> contract object used instead of the body
         self.trace_calls = None
 
@@ -742,6 +743,9 @@ class Interp:
                 root = f.dotted.split(".")[0]
                 last = f.dotted.split(".")[-1]
                 if root in self.noop_roots or f.dotted in self.noop_calls:
+                    if last in ("getLogger", "LoggerAdapter"):
+                        # a logger object: every method call on it is effect-free (A-LOG)
+                        return Opaque("logger", {"noop": True, "default_attr": "method", "isinstance_default": False})
                     return None
                 raise EngineError(f"no assumed contract (stub) for external call {f.dotted}")
             r = stub(self, args, kwargs)
@@ -755,6 +759,8 @@ class Interp:
                 return (yield from r)
             return r
         if isinstance(f, OpaqueMethod):
+            if f.obj.spec.get("noop"):
+                return None
             m = f.obj.spec.get("methods", {}).get(f.name)
             if m is not None:
                 r = m(self, f.obj, args, kwargs)
@@ -798,7 +804,11 @@ class Interp:
             return GenObj(self, fr, lambda: self.run_body(node, fr), f.qualname, is_coro=True)
         if is_gen:
             return GenObj(self, fr, lambda: self.run_body(node, fr), f.qualname)
-        return (yield from self.run_body(node, fr))
+        self.frame_stack.append(fr)          # plain (non-generator) activations, innermost last
+        try:
+            return (yield from self.run_body(node, fr))
+        finally:
+            self.frame_stack.pop()
 
     def run_body(self, node, fr):
         try:
